@@ -47,7 +47,12 @@ class RoundingPen(FilterPen):
 
     def qCurveTo(self, *points):
         self._outPen.qCurveTo(
-            *((self.roundFunc(x), self.roundFunc(y)) for x, y in points)
+            *(
+                (self.roundFunc(pt[0]), self.roundFunc(pt[1]))
+                if pt is not None
+                else None
+                for pt in points
+            )
         )
 
     def addComponent(self, glyphName, transformation):
